@@ -15,6 +15,7 @@ pub struct Checked {
     pub replica_steps_compared: u64,
     pub replica_structure_differs: u64,
     pub misaligned: Option<String>,
+    pub diverged: u64,
 }
 
 pub fn check_trace(trace: &Trace, props: u32, want_log: bool) -> Checked {
@@ -31,6 +32,7 @@ pub fn check_trace(trace: &Trace, props: u32, want_log: bool) -> Checked {
         replica_steps_compared: 0,
         replica_structure_differs: 0,
         misaligned: None,
+        diverged: 0,
     };
     if let Some((step, op, in_lib)) = out.hang {
         let _ = owner_of_op;
@@ -87,6 +89,9 @@ pub fn check_trace(trace: &Trace, props: u32, want_log: bool) -> Checked {
     if c.replica_steps_compared > 0 {
         *out.stats.entry("c07.replica_steps_compared").or_insert(0) += c.replica_steps_compared;
         *out.stats.entry("evaluations").or_insert(0) += c.replica_steps_compared;
+    }
+    if c.diverged > 0 {
+        *out.stats.entry("replica_diverged_on_representation_dependent_step").or_insert(0) += c.diverged;
     }
     if c.replica_structure_differs > 0 {
         *out.stats.entry("probe.shared_and_isolated_terms_differ_structurally").or_insert(0) +=
@@ -160,8 +165,34 @@ fn compare(
         }
         c.replica_steps_compared += 1;
         let step = global_step(trace, ci, *na);
+        // Requests addressed to "the k-th derivative class" or to a character *set* depend on the
+        // class partition, i.e. on the normal form the history happened to produce, not only on the
+        // language. If such a step is answered differently the two executions have legitimately
+        // diverged (different handles in the pool from here on): stop comparing this client.
+        let representation_dependent = matches!(
+            *opa,
+            "class_deriv" | "class_deriv_unchecked" | "set_deriv" | "set_deriv_unchecked" | "start_class"
+        );
+        if representation_dependent {
+            let same = match (oa, ob) {
+                (Obs::Lang(fa, da, na2, _), Obs::Lang(fb, db, nb2, _)) => {
+                    fa == fb && na2 == nb2 && da.is_some() == db.is_some()
+                }
+                (Obs::Bool(x), Obs::Bool(y)) => x == y,
+                (Obs::Faulted, Obs::Faulted) | (Obs::Nothing, Obs::Nothing) => true,
+                _ => false,
+            };
+            if !same {
+                c.diverged += 1;
+                return None;
+            }
+            continue;
+        }
         match (oa, ob) {
-            (Obs::Lang(fa, da, nula), Obs::Lang(fb, db, nulb)) => {
+            (Obs::Lang(fa, da, nula, sha), Obs::Lang(fb, db, nulb, shb)) => {
+                if sha != shb {
+                    c.replica_structure_differs += 1;
+                }
                 if props & Prop::C07.bit() == 0 {
                     continue;
                 }
@@ -236,10 +267,6 @@ fn compare(
                 }
             }
         }
-    }
-    // structural difference probe: do the two executions end with different store sizes?
-    if shared.end_state_hash != iso.end_state_hash {
-        c.replica_structure_differs += 1;
     }
     None
 }
